@@ -111,7 +111,7 @@ def why_clock(hi, mi, tsi):
 # ------------------------------------------------------------------ C05
 
 YEARS = [int(v) for v in os.environ["VQ_YEARS"].split(",")] if os.environ.get("VQ_YEARS") else ([1990, 2000, 2016, 2029] if WIDE else [2000, 2029])
-DAYS = list(range(1, 32)) if WIDE else [12, 29, 31]
+DAYS = [1, 5, 9, 12, 13, 17, 21, 25, 28, 29, 30, 31] if WIDE else [12, 29, 31]
 MONTHS = list(range(1, 13)) if WIDE else [2, 3, 12]
 NMO = len(MONTHS)
 NY, ND = len(YEARS), len(DAYS)
